@@ -1,3 +1,151 @@
-import GoStd.Bytes
+/-
+C11 — TCP framing depends on the bytes, not on how the stream is segmented.
+
+"The sequence of messages the proxy extracts from a TCP byte stream depends only on the bytes, not
+on their segmentation: for any concatenation of well-formed messages (bodies delimited by
+Content-Length, optional blank-line keep-alives between messages, header lines of any length) and
+any split of those bytes across packets, exactly those messages are processed, in order, each with
+its exact headers and body."
+
+Model: Reader.Frame (`connLoop`, `connLoopSegments`, `joinFragments`) over Sip.parseMessage.
+"Well-formed message" is `Lemmas.WF` (Lemmas/Message.lean): start line parses, is non-empty, free
+of CR/LF and does not begin with white space; header names free of ':' CR LF; header values free
+of CR LF and trimmed; the FIRST Content-Length-class header declares exactly the body length
+(≤ int64). Line ends are CRLF or bare LF, chosen per message. Header lines of any length: the
+model's `readLine` is bufio.ReadLine joined over its fragments; that the join is the
+concatenation of the fragments is `C11_fragments_joined` below and rests on the regenerated fact
+F8 (the first fragment is copied before the next reader call), without which it is false
+(`C11_fragments_uncopied_corrupt`).
+-/
+import Reader.Frame
+import Lemmas.Message
+import Lemmas.Frame
+open GoStd Sip Reader Lemmas
+
 namespace Props.C11
+
+/-- one message as it stands in the stream: `keep` keep-alive CRLFs, then the rendered message -/
+structure Wire where
+  keep : Nat
+  eol : Bytes
+  start : Bytes
+  sl : StartLine
+  hs : List (Bytes × Bytes)
+  body : Bytes
+
+def Wire.bytes (w : Wire) : Bytes := keepAlives w.keep ++ render w.eol w.start w.hs w.body
+
+/-- the message the proxy must process for `w`: exact start line, headers (values still strings,
+in order) and body -/
+def Wire.msg (w : Wire) : Message := ⟨w.sl, w.hs.map toHeader, w.body⟩
+
+def Wire.OK (cm : List (Bytes × Bytes)) (w : Wire) : Prop :=
+  EolOK w.eol ∧ WF cm w.start w.sl w.hs w.body
+
+/-- the byte stream: the messages one after another, `trail` keep-alive CRLFs at the end -/
+def stream (ws : List Wire) (trail : Nat) : Bytes := (ws.map Wire.bytes).flatten ++ keepAlives trail
+
+/-- The loop processes a run of well-formed messages one by one and then continues on whatever
+follows them (`tail` is arbitrary: more messages, garbage, nothing). -/
+theorem C11_messages_then (cm : List (Bytes × Bytes)) (ws : List Wire) (hok : ∀ w ∈ ws, w.OK cm)
+    (tail : Bytes) :
+    connLoop cm ((ws.map Wire.bytes).flatten ++ tail) = ws.map Wire.msg ++ connLoop cm tail := by
+  induction ws with
+  | nil => simp
+  | cons w ws ih =>
+    obtain ⟨heol, hwf⟩ := hok w (by simp)
+    have hshape : ((w :: ws).map Wire.bytes).flatten ++ tail
+        = keepAlives w.keep ++ (render w.eol w.start w.hs w.body
+            ++ ((ws.map Wire.bytes).flatten ++ tail)) := by
+      simp [Wire.bytes, List.append_assoc]
+    have hparse := parse_render_keepAlive cm w.eol w.start w.sl w.hs w.body heol hwf w.keep
+      ((ws.map Wire.bytes).flatten ++ tail)
+    rw [hshape, connLoop_ok cm _ _ _ hparse, ih (fun x hx => hok x (by simp [hx]))]
+    rfl
+
+/-- **Exactly those messages, in order.** For any list of well-formed messages, each preceded by
+any number of keep-alive CRLFs (and any number after the last one), the connection loop processes
+exactly their `Message` values, in order: each start line, each header with its exact value and
+each body exactly as sent; nothing is skipped, merged, split or invented. (The fuel of
+`connLoopAux` is discharged once and for all in `Lemmas.connLoop_ok`.) -/
+theorem C11_exact_messages (cm : List (Bytes × Bytes)) (ws : List Wire) (hok : ∀ w ∈ ws, w.OK cm)
+    (trail : Nat) : connLoop cm (stream ws trail) = ws.map Wire.msg := by
+  rw [stream, C11_messages_then cm ws hok,
+    connLoop_error cm _ (parseMessage_white cm _ (keepAlives_white trail)), List.append_nil]
+
+/-- **Only the bytes matter.** Two segmentations of the same bytes yield the same messages. -/
+theorem C11_segmentation_independent (cm : List (Bytes × Bytes)) (segs segs' : List Bytes)
+    (h : segs.flatten = segs'.flatten) : connLoopSegments cm segs = connLoopSegments cm segs' := by
+  simp only [connLoopSegments, h]
+
+/-- the two together: however the stream of well-formed messages is cut into packets, exactly
+those messages are processed, in order -/
+theorem C11_any_split_exact (cm : List (Bytes × Bytes)) (ws : List Wire) (hok : ∀ w ∈ ws, w.OK cm)
+    (trail : Nat) (segs : List Bytes) (h : segs.flatten = stream ws trail) :
+    connLoopSegments cm segs = ws.map Wire.msg := by
+  simp only [connLoopSegments, h, C11_exact_messages cm ws hok trail]
+
+/-- Over-long lines: with the first fragment copied (F8) the joined line is the concatenation of
+the fragments ReadLine delivered, whatever the reader does to its buffer afterwards. -/
+theorem C11_fragments_joined (σ : Bytes → Bytes) (frags : List Bytes) :
+    joinFragments true σ frags = frags.flatten := by
+  match frags with
+  | [] => rfl
+  | [f] => simp [joinFragments]
+  | f :: g :: rest => simp [joinFragments]
+
+/-- Without the copy a two-fragment line IS corrupted by a reader that overwrites its buffer
+(here: flips the low bit of every byte of the first fragment). -/
+theorem C11_fragments_uncopied_corrupt :
+    joinFragments false (fun f => f.map (· ^^^ 1)) [[86, 105], [97]] ≠ [[86, 105], [97]].flatten := by
+  decide
+
+/-- a line that fits one fragment is never affected -/
+theorem C11_single_fragment (c : Bool) (σ : Bytes → Bytes) (f : Bytes) :
+    joinFragments c σ [f] = f := rfl
+
+/-! ### non-vacuity -/
+
+/-- a response with two keep-alives in front and CRLF line ends, for any compact table -/
+def exampleWire : Wire :=
+  { keep := 2, eol := [13, 10],
+    start := [83, 73, 80, 47, 50, 46, 48, 32, 50, 48, 48, 32, 79, 75],
+    sl := .status [83, 73, 80, 47, 50, 46, 48] 200 [79, 75],
+    hs := [(contentLengthName, [50])], body := [104, 105] }
+
+theorem exampleWire_ok (cm : List (Bytes × Bytes)) : exampleWire.OK cm :=
+  ⟨Or.inl rfl, wf_example_status cm⟩
+
+/-- the same message with bare-LF line ends and no keep-alive -/
+def exampleWireLF : Wire := { exampleWire with keep := 0, eol := [10] }
+
+theorem exampleWireLF_ok (cm : List (Bytes × Bytes)) : exampleWireLF.OK cm :=
+  ⟨Or.inr rfl, wf_example_status cm⟩
+
+example (cm : List (Bytes × Bytes)) :
+    connLoop cm (stream [exampleWire, exampleWireLF, exampleWire] 1)
+      = [exampleWire.msg, exampleWireLF.msg, exampleWire.msg] :=
+  C11_exact_messages cm [exampleWire, exampleWireLF, exampleWire] (by
+    intro w hw
+    simp only [List.mem_cons, List.not_mem_nil, or_false] at hw
+    rcases hw with rfl | rfl | rfl
+    · exact exampleWire_ok cm
+    · exact exampleWireLF_ok cm
+    · exact exampleWire_ok cm) 1
+
+/-- the bytes of that stream cut at two arbitrary places (inside a header line, inside a body) -/
+example (cm : List (Bytes × Bytes)) :
+    connLoopSegments cm
+        [(stream [exampleWire, exampleWireLF] 0).take 9,
+         ((stream [exampleWire, exampleWireLF] 0).drop 9).take 30,
+         ((stream [exampleWire, exampleWireLF] 0).drop 9).drop 30]
+      = [exampleWire.msg, exampleWireLF.msg] :=
+  C11_any_split_exact cm [exampleWire, exampleWireLF] (by
+    intro w hw
+    simp only [List.mem_cons, List.not_mem_nil, or_false] at hw
+    rcases hw with rfl | rfl
+    · exact exampleWire_ok cm
+    · exact exampleWireLF_ok cm) 0 _ (by
+      simp only [List.flatten_cons, List.flatten_nil, List.append_nil, List.take_append_drop])
+
 end Props.C11
